@@ -403,7 +403,7 @@ fn fault_section(shard: Shard, rep: &mut Report) {
                 let case = Case { scenario: sc.to_string(), sharded, depth, checker: false, maint: 0 };
                 let base = observe_with(&case, 10, None);
                 for (k, ev) in base.trace.iter().enumerate() {
-                    for a in plausible(ev, false).into_iter().take(if crate::props::e1::THOROUGH.load(std::sync::atomic::Ordering::SeqCst) { 8 } else { 2 }) {
+                    for a in plausible(ev, false).into_iter().take(if crate::props::e1::THOROUGH.load(std::sync::atomic::Ordering::SeqCst) || (ev.kind == Kind::Open && sc.starts_with("get")) { 8 } else { 2 }) {
                         no += 1;
                         if !shard.mine(no) {
                             continue;
@@ -416,6 +416,23 @@ fn fault_section(shard: Shard, rep: &mut Report) {
                         rep.count("fd_residue_under_fault_cases", 1);
                         if ctl.hit.lock().unwrap().is_empty() {
                             continue;
+                        }
+                        // a lookup makes at most two open attempts per cache directory whatever the answers it gets
+                        if matches!(case.scenario.as_str(), "get_hit" | "get_miss" | "get_hit_last_level" | "get_hit_all_levels") {
+                            let mut per_root: BTreeMap<String, u64> = BTreeMap::new();
+                            for (d, n) in &o.opens_per_dir {
+                                let root = d.split("/.kismet_").next().unwrap_or(d).to_string();
+                                *per_root.entry(root).or_insert(0) += n;
+                            }
+                            for (r, n) in per_root {
+                                if n > 2 {
+                                    rep.violation(
+                                        "resources:too-many-opens-under-fault",
+                                        format!("{} with call {} ({}) failing {:?}: {} open attempts for cache directory {}", case.to_json(), k, ev.func, a, n, r.rsplit('/').next().unwrap_or("")),
+                                        json!({"fault_section": true}),
+                                    );
+                                }
+                            }
                         }
                         // the operation's cost stays independent of the directory's size on error paths too (the call
                         // sequence is the same up to the failing call whatever the size, so the same index is the same call)
@@ -525,7 +542,7 @@ pub fn run(_tier: Tier, shard: Shard, rep: &mut Report) {
         entries (over capacity, every third entry read; .kismet_temp also holding a stale file, a young file and a stale three-level directory \
         tree): nothing left open, no lock, the peak does not grow with the number of entries nor with the depth of the stale tree, \
         and for set/put and their temp-file variants it stays within 2 (3) (call counts legitimately grow there). And on error paths: every call of every scenario failing once in turn, nothing may stay open \
-        afterwards, no directory is listed and the call counts with 10 and with 100 entries are identical. Every case is non-trivial (4 sizes compared)."
+        afterwards, a lookup still makes at most two open attempts per cache directory (every errno on its opens, ESTALE included), no directory is listed and the call counts with 10 and with 100 entries are identical. Every case is non-trivial (4 sizes compared)."
         .into();
     rep.assumptions = vec![
         "descriptors the scenario itself holds (the application's source temp file) are not attributed to the library".into(),
